@@ -111,6 +111,24 @@ func c15Check(c c15Case) fw.Outcome {
 	if n2 := geo.NormalizeDistance(n1); n2 != n1 {
 		return fw.Failf(label, "NormalizeDistance not idempotent: %v -> %v -> %v", big, n1, n2)
 	}
+	if !(n1 >= 0 && n1 < 2*piR*(1+1e-15)) {
+		return fw.Failf(label, "NormalizeDistance(%v) = %v is outside [0, one circumference)", big, n1)
+	}
+	// within a few ulps of a whole number of circumferences, where a quotient-based reduction rounds the wrong way
+	{
+		k := 1 + float64(int64(math.Abs(brg)*7)%200)
+		m := k * 2 * piR
+		for i := int64(math.Abs(d)) % 5; i > 0; i-- {
+			m = math.Nextafter(m, 0)
+		}
+		if int64(math.Abs(brg))%2 == 0 {
+			m = math.Nextafter(math.Nextafter(m, math.Inf(1)), math.Inf(1))
+		}
+		a1 := geo.NormalizeDistance(m)
+		if a2 := geo.NormalizeDistance(a1); a2 != a1 || !(a1 >= 0 && a1 < 2*piR*(1+1e-15)) {
+			return fw.Failf(label, "NormalizeDistance near %v circumferences: %v -> %v -> %v (not idempotent or outside [0, one circumference))", k, m, a1, a2)
+		}
+	}
 	hb, hn := geo.DistanceToHaversine(big), geo.DistanceToHaversine(n1)
 	if !(math.Abs(hb-hn) <= (big/sphere.R+4)*math.Pow(2, -51)) {
 		return fw.Failf(label, "NormalizeDistance changes the haversine: h(%v)=%v, h(%v)=%v", big, hb, n1, hn)
